@@ -277,13 +277,17 @@ func fsSiteFor(keyFields []string, casketfileText func(T string) (string, error)
 
 // fetch writes one raw request and returns the parsed response with its body.
 func (s *fsSite) fetch(method, target, extraHeaders string) (*http.Response, []byte, error, error) {
+	return s.fetchHost("fs.test", method, target, extraHeaders)
+}
+
+func (s *fsSite) fetchHost(host, method, target, extraHeaders string) (*http.Response, []byte, error, error) {
 	c, err := net.DialTimeout("tcp", s.addr, 5*time.Second)
 	if err != nil {
 		return nil, nil, nil, err
 	}
 	defer c.Close()
 	c.SetDeadline(time.Now().Add(20 * time.Second))
-	fmt.Fprintf(c, "%s %s HTTP/1.1\r\nHost: fs.test\r\n%sConnection: close\r\n\r\n", method, target, extraHeaders)
+	fmt.Fprintf(c, "%s %s HTTP/1.1\r\nHost: %s\r\n%sConnection: close\r\n\r\n", method, target, host, extraHeaders)
 	resp, err := http.ReadResponse(bufio.NewReader(c), &http.Request{Method: method})
 	if err != nil {
 		return nil, nil, nil, err
